@@ -167,6 +167,12 @@ impl BucketSegmentWriter {
     }
 
     pub fn flush_writer(&mut self) -> Result<(), WriteError> {
+        #[cfg(sierra_db_sierradb_verif)]
+        if super::FAIL_NEXT_FLUSH_WRITER.swap(false, std::sync::atomic::Ordering::SeqCst) {
+            return Err(WriteError::Writer(seglog::write::WriteError::Io(std::io::Error::other(
+                "verif: injected flush_writer failure",
+            ))));
+        }
         self.writer.flush_writer()?;
         Ok(())
     }
